@@ -58,6 +58,10 @@ def gate_cases(fe):
     for p in pkts:
         for r in routes:
             yield {'kind': 'g', 'fe': fe, 'pkt': p, 'route': r}
+            if isinstance(r, dict) and (p['params'] or p['sig']):
+                # the same, after a second registration on the occupied prefix (with an intruder validator of the
+                # opposite verdict) was attempted and refused: the validator in force must still be the first one
+                yield {'kind': 'g', 'fe': fe, 'pkt': p, 'route': r, 'dup': True}
 
 
 def cases(rng, tier):
@@ -187,6 +191,16 @@ def run_gate(case):
                     rig.app._fib[enc.Name.normalize('/g')] = appv2.PrefixTreeNode()
                 elif route != 'none':
                     rig.app.attach_handler('/g', handler, validator)
+                    if case.get('dup'):
+                        async def intruder(name, sig, ctx):
+                            log.append(['w', now()])
+                            return types.ValidResult.FAIL if spec and spec['verdict'] in ('PASS', 'ALLOW_BYPASS') \
+                                else types.ValidResult.PASS
+                        try:
+                            rig.app.attach_handler(rig_name_variant(enc), lambda *a: log.append(['x', now()]), intruder)
+                            log.append(['D', now()])      # the duplicate was NOT refused
+                        except ValueError:
+                            pass
             else:
                 from ndn import name_tree
 
@@ -203,6 +217,15 @@ def run_gate(case):
                     rig.app._prefix_tree[enc.Name.normalize('/g')] = name_tree.PrefixTreeNode()
                 elif route != 'none':
                     rig.app.set_interest_filter('/g', handler, validator)
+                    if case.get('dup'):
+                        async def intruder(name, sig):
+                            log.append(['w', now()])
+                            return not (spec and c03.V1_TRUTH.get(spec['verdict']))
+                        try:
+                            rig.app.set_interest_filter(rig_name_variant(enc), lambda *a: log.append(['x', now()]), intruder)
+                            log.append(['D', now()])
+                        except ValueError:
+                            pass
             loop.advance(c03.T0 + 0.010)
             rig.deliver(wire)
             loop.advance(c03.T0 + 0.500)
@@ -210,6 +233,11 @@ def run_gate(case):
         finally:
             sec_mod.params_sha256_checker, app_mod.params_sha256_checker = saved
     return {'log': log, 'acts': ''.join(k for k, _ in log), 'loop_errors': errs}
+
+
+def rig_name_variant(enc):
+    """the occupied prefix '/g' in another accepted representation"""
+    return [enc.Component.from_str('g')]
 
 
 class Run5(c03.Run):
@@ -263,6 +291,11 @@ def oracle_gate(case, impl):
         return f"internal error escaped a callback: {impl['loop_errors'][0][0]}"
     handled = acts.count('h')
     validated = acts.count('v')
+    if 'D' in acts:
+        return 'a second registration on an occupied prefix was not refused'
+    if 'w' in acts or 'x' in acts:
+        return ('a refused second registration took effect: its '
+                + ('validator was consulted' if 'w' in acts else 'handler was invoked'))
     if handled > 1:
         return 'handler invoked more than once'
     needs = p['params'] or p['sig']
